@@ -27,6 +27,30 @@ pub fn hostile_number_strings() -> Vec<String> {
     v
 }
 
+/// decimal texts a hair above / below the midpoint of an f32 and its upper neighbour: the midpoint is an
+/// exact f64, so a parser that goes through f64 (or any wider intermediate) and then narrows rounds twice
+pub fn f32_midpoint_texts(v: f32) -> Vec<String> {
+    if !v.is_finite() || v == 0.0 || v.abs() < 1e-30 || v.abs() > 1e30 {
+        return vec![];
+    }
+    let up = if v > 0.0 { f32::from_bits(v.to_bits() + 1) } else { f32::from_bits(v.to_bits() - 1) };
+    if !up.is_finite() {
+        return vec![];
+    }
+    let mid = (v as f64 + up as f64) / 2.0;
+    // exact decimal expansion of the f64 midpoint (enough digits for |v| >= 1e-30)
+    let exact = format!("{mid:.140}");
+    let exact = exact.trim_end_matches('0').to_string();
+    let mut out = vec![exact.clone(), format!("{exact}0000000001")];
+    // strictly below: decrement the last (non-zero) digit and continue with nines
+    if let Some(last) = exact.chars().last().filter(|c| c.is_ascii_digit() && *c != '0') {
+        let below = format!("{}{}9999999999", &exact[..exact.len() - 1], (last as u8 - 1) as char);
+        // for negative numbers "below in magnitude" is above in value; both sides are wanted anyway
+        out.push(below);
+    }
+    out
+}
+
 pub fn check<I: Inputs>(vt: &'static Vt<I>, ctx: &Ctx) -> DeclReport {
     let Some(fs) = vt.from_str else { return DeclReport::irrelevant(vt.id) };
     let mut rep = DeclReport::new(vt.id);
@@ -48,6 +72,22 @@ pub fn check<I: Inputs>(vt: &'static Vt<I>, ctx: &Ctx) -> DeclReport {
         }
     }
     sys.extend(hostile_number_strings().into_iter().map(Text));
+    if I::NAME == "f32" {
+        let mut n = 0;
+        for v in I::systematic(m, ctx.tier) {
+            if let Some(x) = v.to_f64_() {
+                let t = f32_midpoint_texts(x as f32);
+                n += t.len();
+                sys.extend(t.into_iter().map(Text));
+            }
+            if n > 1200 {
+                break;
+            }
+        }
+        for x in [16777216.0f32, 16777218.0, 1.0, 0.1, 3.0e10, 1.0e-10, -7.5, 255.0, 1.1754944e-38] {
+            sys.extend(f32_midpoint_texts(x).into_iter().map(Text));
+        }
+    }
     let inner_strat = I::strategy(m);
     let strat = prop_oneof![
         inner_strat.prop_filter_map("displayable", |v| v.display_()).prop_map(Text),
@@ -55,6 +95,7 @@ pub fn check<I: Inputs>(vt: &'static Vt<I>, ctx: &Ctx) -> DeclReport {
         "[-+]?[0-9]{0,6}\\.?[0-9]{0,6}(e[-+]?[0-9]{1,3})?".prop_map(Text),
         "[-+0-9;.eE naifNI]{0,12}".prop_map(Text),
         ".{0,8}".prop_map(Text),
+        (any::<u32>(), 0usize..3).prop_map(|(b, k)| Text(f32_midpoint_texts(f32::from_bits(b)).get(k).cloned().unwrap_or_else(|| "1".into()))),
     ]
     .boxed();
 
